@@ -351,6 +351,8 @@ func cmdRun(args []string) int {
 				Solver: symgo.SolverByName(envOr("VERIF_SOLVER", "cvc5"), qt), OwnPkg: ld.own,
 				MaxInstr: h.MaxInstr, MaxViol: 40, Deadline: time.Now().Add(budget), Verbose: verbose,
 			}
+			hfn := h.Fn
+			cfg.IsKnown = func(v *symgo.Violation) bool { return matchFinding(findings, id, hfn, v) != nil }
 			if tier == "thorough" && h.Cross {
 				cs := symgo.SolverByName("z3-new", 20000)
 				cfg.Cross = &cs
